@@ -331,14 +331,19 @@ where
     {
         // Bring the index tables back in sync with the map when leaving this
         // function, also when `predicate` panics and the call is left by unwinding.
-        struct Resync<'a, I, P, H>(&'a mut Store<I, P, H>);
+        struct Resync<'a, I, P, H> {
+            store: &'a mut Store<I, P, H>,
+            completed: bool,
+        }
 
         impl<I, P, H> Drop for Resync<'_, I, P, H> {
             fn drop(&mut self) {
-                let store = &mut *self.0;
-                if store.map.len() != store.map.iter().len() {
+                let store = &mut *self.store;
+                if !self.completed {
                     // `predicate` unwound in the middle of `retain2`, which then
-                    // skips its re-indexing: a no-op `retain` performs it
+                    // skips its re-indexing: a no-op `retain` performs it.
+                    // (Nothing else may be asked of the map before that: with
+                    // debug assertions even `len()` panics on this state.)
                     store.map.retain(|_, _| true);
                 }
                 if store.map.len() != store.size {
@@ -349,8 +354,12 @@ where
             }
         }
 
-        let guard = Resync(self);
-        guard.0.map.retain2(predicate);
+        let mut guard = Resync {
+            store: self,
+            completed: false,
+        };
+        guard.store.map.retain2(predicate);
+        guard.completed = true;
     }
 
     /// If the predicate returns true for the element in position `position`,
